@@ -227,6 +227,29 @@ add("C17", "E4 rt-grid + E3 sock-mc", "model_checking",
     "closes. TCP cases run one at a time (port reuse between parallel cases would fake a surviving listener).",
     "stateless deviation-bounded DFS over the real sockets (drop at every point) + exhaustive configuration/history grid on the real runtime")
 
+add("C18", "E4 rt-grid (private network namespaces)", "exploration",
+    "Every operation sequence up to length 4 (thorough 5) over {bind TCP v4 / v6 / localhost port 0, bind IPC path, bind an already "
+    "bound endpoint, unbind oldest, unbind unknown, connect in to every bound endpoint by its text form and exchange a message, "
+    "exchange on every established connection} on a real REP and a real PULL socket on the real tokio runtime, against a reference "
+    "model of the bind set; after EVERY operation: return values, binds() contents, every bound endpoint accepts and works, every "
+    "unbound endpoint refuses at once, established connections survive. Bounded-exhaustive over operation histories, but OS "
+    "scheduling is not enumerated, hence level 'exploration' rather than model checking. Worker processes run in private network "
+    "namespaces so that a released port cannot be re-taken by another process.",
+    "DESIGN.md 5.17",
+    "Not owned: OS scheduling, kernel buffers. Conditions tied to a return are tested immediately after the return.",
+    "exhaustive operation-sequence enumeration on the real runtime against a reference model (schedules not enumerated)")
+
+add("C20", "E4 rt-grid (fault enumeration)", "fault_enumeration",
+    "For each of the 9 bound socket types over real TCP v4 (thorough: + TCP v6, IPC): a raw client that sends the first k bytes of a "
+    "valid greeting+READY for EVERY k and then goes silent / closes / switches to garbage (1 client; 3 at every 16th offset), with "
+    "well-behaved clients connecting before, while and after. Oracle (monotone conditions, 5 s horizon): the client connecting "
+    "meanwhile completes its handshake and a message exchange (for round-robin senders one send per well-behaved client must reach "
+    "every one of them, so a half-handshaken connection in the rotation is detected); established traffic continues; the monitor "
+    "reports AcceptFailed for every client that closes mid-handshake and never more Accepted events than completed handshakes.",
+    "DESIGN.md 5.17",
+    "Not owned: OS scheduling. 'Never completes' is observed as 'not within 5 s'.",
+    "exhaustive fault-offset enumeration on the real runtime (schedules not enumerated)")
+
 PENDING = ["C01","C02","C03","C04","C05","C06","C07","C08","C09","C10","C11","C12","C13","C14","C15","C16","C17","C18","C20"]
 
 def main():
